@@ -321,11 +321,11 @@ func (g *gen) field(fieldName string, fieldType types.Type) (string, error) {
 			types.Uintptr, types.UnsafePointer, types.UntypedInt:
 			return fmt.Sprintf("uint64(%s)", fieldName), nil
 		case types.Uint64:
-			return fmt.Sprintf("%s", fieldName), nil
+			return fmt.Sprintf("uint64(%s)", fieldName), nil
 		case types.Float32:
-			return fmt.Sprintf("uint64(%s.Float32bits(%s))", g.mathPkg(), fieldName), nil
+			return fmt.Sprintf("uint64(%s.Float32bits(float32(%s)))", g.mathPkg(), fieldName), nil
 		case types.Float64:
-			return fmt.Sprintf("%s.Float64bits(%s)", g.mathPkg(), fieldName), nil
+			return fmt.Sprintf("%s.Float64bits(float64(%s))", g.mathPkg(), fieldName), nil
 		case types.Complex64:
 			return fmt.Sprintf("(31 * ((31 * 17) + uint64(%s.Float32bits(real(%s))))) + uint64(%s.Float32bits(imag(%s)))", g.mathPkg(), fieldName, g.mathPkg(), fieldName), nil
 		case types.Complex128:
